@@ -725,11 +725,97 @@ class W:
         return "?%s" % (self.name or "")
 
 
+class ConstT(tuple):
+    """a constant node ("const", name, value).  Integer constants compare BY VALUE: `OUT_LEN`, a new `const FOO: usize = 32` and the
+    literal 32 are the same thing to every rule (replacing a literal by a named constant of equal value, or the reverse, is
+    behaviour-preserving).  Non-integer constants (tables, byte strings) keep comparing by name and value."""
+    __slots__ = ()
+
+    def _key(self):
+        if len(self) == 3 and isinstance(self[2], int) and not isinstance(self[2], bool):
+            return ("const", self[2])
+        return tuple(self)
+
+    def __eq__(self, other):
+        if isinstance(other, tuple) and len(other) == 3 and other[0] == "const":
+            return self._key() == ConstT(other)._key()
+        return False
+
+    def __ne__(self, other):
+        return not self.__eq__(other)
+
+    def __hash__(self):
+        return hash(self._key())
+
+
+INT_TY_BITS = {"u8": 8, "u16": 16, "u32": 32, "u64": 64, "usize": 32, "u128": 128, "i32": 31, "i64": 63, "isize": 31}
+_SLICE_SPLITS = ("::split_at", "::split_at_mut")
+
+
+def _is_call(e, suffixes):
+    return isinstance(e, tuple) and len(e) == 3 and e[0] == "call" and isinstance(e[1], str) and any(e[1].endswith(s_) or e[1].split("::<")[0].endswith(s_) for s_ in suffixes)
+
+
+def _slice_len(x):
+    """symbolic length of a slice-valued expression built from split_at / range indexing, else None"""
+    if isinstance(x, tuple) and x and x[0] == "path" and len(x[2]) == 1 and x[2][0] in ("0", "1") and _is_call(x[1], _SLICE_SPLITS) and len(x[1][2]) == 2:
+        base, n = x[1][2]
+        return n if x[2][0] == "0" else ("bin", "Sub", ("call", "core::slice::<impl [T]>::len", (base,)), n)
+    if _is_call(x, ("::index", "::index_mut")) and len(x[2]) == 2 and isinstance(x[2][1], tuple) and x[2][1] and x[2][1][0] == "adt":
+        base, r = x[2]
+        nm = r[1] if isinstance(r[1], str) else ""
+        fields, ops = r[3], r[4]
+        d = dict(zip(fields, ops))
+        if nm.endswith("RangeTo") and "end" in d:
+            return d["end"]
+        if nm.endswith("RangeFrom") and "start" in d:
+            return ("bin", "Sub", ("call", "core::slice::<impl [T]>::len", (base,)), d["start"])
+        if nm.endswith("Range") and "start" in d and "end" in d:
+            return ("bin", "Sub", d["end"], d["start"])
+    return None
+
+
+def _canon(e):
+    """equivalent spellings brought to one form (applied bottom-up by val)"""
+    k = e[0]
+    if k == "cast" and len(e) == 3 and isinstance(e[1], tuple) and e[1] and e[1][0] == "const" and isinstance(e[1][2], int) and not isinstance(e[1][2], bool):
+        bits = INT_TY_BITS.get(e[2])
+        if bits is not None and 0 <= e[1][2] < (1 << bits):
+            return ConstT(("const", e[1][1], e[1][2]))          # (CHUNK_LEN as u64) is the constant 1024
+    if k == "bin" and e[1] in ("Shr", "Shl") and isinstance(e[3], tuple) and e[3][0] == "const" and isinstance(e[3][2], int) and 0 <= e[3][2] < 64:
+        return ("bin", "Div" if e[1] == "Shr" else "Mul", e[2], ConstT(("const", None, 1 << e[3][2])))
+    if k == "bin" and e[1] == "Gt" and isinstance(e[3], tuple) and e[3][0] == "const" and e[3][2] == 0:
+        return ("bin", "Ne", e[2], e[3])                           # lengths and counters are unsigned: x > 0 is x != 0
+    if k == "call" and len(e[2]) == 1 and isinstance(e[1], str):
+        nm = e[1]
+        if nm.endswith("::len") or nm.split("::<")[0].endswith("::len"):
+            n = _slice_len(e[2][0])
+            if n is not None:
+                return n
+        if (nm.endswith("From<u8>>::from") or nm.endswith("From<u16>>::from") or nm.endswith("From<u32>>::from") or nm.endswith("From<u64>>::from")
+                or nm.endswith("From<usize>>::from") or nm.endswith("From<bool>>::from")) and nm.startswith("<"):
+            to = nm[1:].split(" as ")[0]
+            if to in INT_TY_BITS:
+                return _canon(("cast", e[2][0], to))
+    if k == "call" and len(e[2]) == 2 and isinstance(e[1], str) and (e[1].endswith("Ord>::min") or e[1].endswith("::min") and e[1].startswith("core::num")):
+        return ("call", "core::cmp::min", e[2])
+    if k == "call" and len(e[2]) == 2 and isinstance(e[1], str) and (e[1].endswith("Ord>::max") or e[1].endswith("::max") and e[1].startswith("core::num")):
+        return ("call", "core::cmp::max", e[2])
+    return e
+
+
 def val(e):
     """value-level normal form: refs/derefs dropped, operator types dropped, casts between
-    integer types of non-decreasing width kept as ('cast', e, to)"""
+    integer types of non-decreasing width kept as ('cast', e, to); equivalent spellings canonicalised (_canon)"""
     if not isinstance(e, tuple) or not e:
         return e
+    r = _val(e)
+    if isinstance(r, tuple) and r and r[0] in ("cast", "bin", "call"):
+        r = _canon(r)
+    return r
+
+
+def _val(e):
     k = e[0]
     if k == "ref":
         return val(e[1])
@@ -751,7 +837,7 @@ def val(e):
             return ("cast", val(e[1]), e[2])
         return ("cast", val(e[2]), e[4])
     if k == "const":
-        return ("const", e[1], e[2])
+        return ConstT(("const", e[1], e[2]))
     if k == "discr":
         return ("discr", val(e[1]))
     if k == "call":
@@ -765,10 +851,32 @@ def val(e):
     return e
 
 
+def pcanon(p):
+    """the canonical spelling (_canon) of a PATTERN: rules may be written with either spelling"""
+    if isinstance(p, W) or not isinstance(p, tuple) or not p:
+        return p
+    q = tuple(pcanon(x) for x in p)
+    k = q[0]
+    if k == "cast" and len(q) == 3 and isinstance(q[1], tuple) and q[1] and q[1][0] == "const" and len(q[1]) == 3:
+        v = q[1][2]
+        if isinstance(v, W) or (isinstance(v, int) and not isinstance(v, bool)):
+            return q[1]
+    if k == "bin" and len(q) == 4 and q[1] in ("Shr", "Shl") and isinstance(q[3], tuple) and q[3] and q[3][0] == "const" and isinstance(q[3][2], int) and not isinstance(q[3][2], bool):
+        return ("bin", "Div" if q[1] == "Shr" else "Mul", q[2], ("const", None, 1 << q[3][2]))
+    if k == "bin" and len(q) == 4 and q[1] == "Gt" and isinstance(q[3], tuple) and q[3] and q[3][0] == "const" and q[3][2] == 0:
+        return ("bin", "Ne", q[2], q[3])
+    return q
+
+
 def unify(p, e, b=None):
     """match pattern p against (val-normalised) expression e; returns bindings dict or None"""
     if b is None:
         b = {}
+        p = pcanon(p)
+    return _unify(p, e, b)
+
+
+def _unify(p, e, b):
     if isinstance(p, W):
         if p.pred is not None and not p.pred(e):
             return None
@@ -782,8 +890,19 @@ def unify(p, e, b=None):
     if isinstance(p, tuple):
         if not isinstance(e, tuple) or len(p) != len(e):
             return None
+        if len(p) == 3 and p[0] == "const" and e[0] == "const" and isinstance(e[2], int) and not isinstance(e[2], bool):
+            # integer constants match by value; a pattern that names a spec constant without a value uses the spec's value
+            pv = p[2]
+            if isinstance(pv, W):
+                known = SPEC_CONSTS.get(p[1].rsplit("::", 1)[-1]) if isinstance(p[1], str) else None
+                if known is not None:
+                    return _unify(pv, e[2], b) if e[2] == known else None
+                if isinstance(p[1], W) or p[1] is None or p[1] == e[1]:
+                    return _unify(pv, e[2], b)
+                return None
+            return b if pv == e[2] else None
         for x, y in zip(p, e):
-            b = unify(x, y, b)
+            b = _unify(x, y, b)
             if b is None:
                 return None
         return b
@@ -792,7 +911,8 @@ def unify(p, e, b=None):
 
 def find_sub(e, p, b=None):
     """first sub-expression of e matching p (pre-order); returns (sub, bindings) or None"""
-    r = unify(p, e, b)
+    p = pcanon(p)
+    r = _unify(p, e, dict(b) if b else {})
     if r is not None:
         return e, r
     if isinstance(e, tuple):
@@ -802,6 +922,10 @@ def find_sub(e, p, b=None):
                 if r is not None:
                     return r
     return None
+
+
+SPEC_CONSTS = {"CHUNK_LEN": 1024, "BLOCK_LEN": 64, "OUT_LEN": 32, "KEY_LEN": 32, "MAX_DEPTH": 54, "CHUNK_START": 1, "CHUNK_END": 2, "PARENT": 4,
+               "ROOT": 8, "KEYED_HASH": 16, "DERIVE_KEY_CONTEXT": 32, "DERIVE_KEY_MATERIAL": 64}
 
 
 class P:
